@@ -48,11 +48,11 @@ def failStr : Failure → String
   | .raw c => "raw:" ++ c
 
 partial def resultStr : Result → String
-  | .mk f v p c s sev msgs det =>
+  | .mk f v p c s sev msgs det src =>
     let opt := fun (t : Option Term) => match t with | some x => termStr x | none => "-"
     "R " ++ termStr f ++ " " ++ opt v ++ " " ++ opt p ++ " " ++ termStr c ++ " " ++ termStr s ++ " " ++
       termStr sev ++ " " ++ toString msgs.length ++ (String.join (msgs.map fun m => " " ++ termStr m)) ++ " " ++
-      toString det.length ++ (String.join (det.map fun d => " " ++ resultStr d))
+      toString det.length ++ (String.join (det.map fun d => " " ++ resultStr d)) ++ " " ++ opt src
 
 /-- `k=v` options -/
 def parseOpts (toks : List String) : Opts × List String :=
@@ -79,6 +79,48 @@ def parseRx : Nat → List String → List (String × String × String × Bool) 
 def rxOfTable (tbl : List (String × String × String × Bool)) : Regex := fun p f s =>
   (tbl.find? fun r => r.1 = p ∧ r.2.1 = f ∧ r.2.2.1 = s).map (·.2.2.2)
 
+/-- `<k> (var term)*` -/
+def parseBinds : Nat → List String → List (String × Term) → Option (List (String × Term) × List String)
+  | 0, rest, acc => some (acc.reverse, rest)
+  | n+1, v :: t :: rest, acc => match parseTerm t with
+    | some tm => parseBinds n rest ((unescape v, tm) :: acc)
+    | none => none
+  | _, _, _ => none
+
+def parseSols : Nat → List String → List Sol → Option (List Sol × List String)
+  | 0, rest, acc => some (acc.reverse, rest)
+  | n+1, k :: rest, acc => match k.toNat? with
+    | some kk => match parseBinds kk rest [] with
+      | some (b, rest') => parseSols n rest' (⟨b⟩ :: acc)
+      | none => none
+    | none => none
+  | _, _, _ => none
+
+/-- `SPQ n (constraint focus nsols sols…)*` -/
+def parseSpq : Nat → List String → List ((Term × Term) × List Sol) → Option (List ((Term × Term) × List Sol) × List String)
+  | 0, rest, acc => some (acc, rest)
+  | n+1, c :: f :: k :: rest, acc =>
+    match parseTerm c, parseTerm f, k.toNat? with
+    | some cn, some fn, some kk => match parseSols kk rest [] with
+      | some (sols, rest') => parseSpq n rest' (((cn, fn), sols) :: acc)
+      | none => none
+    | _, _, _ => none
+  | _, _, _ => none
+
+/-- `SPT m (constraint minus values service nested asVar usesPath usesSG)*` -/
+def parseSpt : Nat → List String → List (Term × SparqlTemplate) → Option (List (Term × SparqlTemplate) × List String)
+  | 0, rest, acc => some (acc, rest)
+  | n+1, c :: mi :: va :: se :: ne :: asv :: up :: us :: rest, acc =>
+    match parseTerm c with
+    | some cn =>
+      let b : String → Bool := fun x => x = "1"
+      let nested : Option (List String) := if ne = "-" then none else some ((ne.splitOn ",").filter (· ≠ ""))
+      let asV : Option String := if asv = "-" then none else some asv
+      let t : SparqlTemplate := ⟨b mi, b va, b se, nested, asV, b up, b us⟩
+      parseSpt n rest ((cn, t) :: acc)
+    | none => none
+  | _, _, _ => none
+
 /-- `validate <opts…> FOCUS <terms> SHAPES <terms> SG <graph> DG <graph> RX <n> …` -/
 def opValidate (toks : List String) : String :=
   let (o, rest) := parseOpts toks
@@ -93,9 +135,22 @@ def opValidate (toks : List String) : String :=
           match parseGraph rest with
           | some (dg, "RX" :: n :: rest) =>
             match parseRx (n.toNat?.getD 0) rest [] with
-            | some (tbl, _) =>
+            | some (tbl, rest) =>
+              let (spq, spt) : List ((Term × Term) × List Sol) × List (Term × SparqlTemplate) :=
+                match rest with
+                | "SPQ" :: n :: rest1 =>
+                  (match parseSpq (n.toNat?.getD 0) rest1 [] with
+                    | some (q, "SPT" :: m :: rest2) =>
+                      (match parseSpt (m.toNat?.getD 0) rest2 [] with
+                        | some (t, _) => (q, t)
+                        | none => (q, []))
+                    | some (q, _) => (q, [])
+                    | none => ([], []))
+                | _ => ([], [])
+              let sqf := fun (c f : Term) => (spq.find? (fun e => e.1 = (c, f))).map (·.2)
+              let sqi := fun (c : Term) => (spt.find? (fun e => e.1 = c)).map (·.2)
               let sg' := sg ++ systemTriples.filter (· ∉ sg)
-              let out := runValidate o sg' dg (rxOfTable tbl) focus useShapes
+              let out := runValidate o sg' dg (rxOfTable tbl) focus useShapes sqf sqi
               match out with
               | .error e => "err " ++ failStr e
               | .ok (conf, rs) => "ok " ++ (if conf then "1" else "0") ++ " " ++ toString rs.length ++
